@@ -24,6 +24,9 @@ func init() {
 
 func runC05(c *core.Ctx) {
 	p := c.P
+	c.Rule("C05.decoderbytes", decoderBytesText, 4)
+	checkDecoderBytes(c)
+
 	c.Rule("C05.samederivation", "Store and ComputeLink: encoder = EncoderChooser(lp) and hasher = HasherChooser(lp) with lp the prototype parameter, both obtained in this activation and never stored to a field or global; the encoder's writer argument is the hasher or an io.MultiWriter containing it; the link is lp.BuildLink(hasher.Sum(..)) with the same lp and hasher; in Store the value passed to the committer is the value returned", 10)
 	for _, name := range []string{"Store", "ComputeLink"} {
 		fn := p.Func("linking", "*LinkSystem", name)
